@@ -48,6 +48,7 @@ static LOG: Mutex<Vec<(usize, u64)>> = Mutex::new(Vec::new());
 static HANG_LIMIT: usize = 2_000_000;
 static HUNG: AtomicBool = AtomicBool::new(false);
 static DEAD: AtomicUsize = AtomicUsize::new(usize::MAX);
+static PARKED: AtomicBool = AtomicBool::new(false);
 
 thread_local! { static TID: std::cell::Cell<usize> = const { std::cell::Cell::new(usize::MAX) }; }
 
@@ -63,13 +64,14 @@ fn gate(addr: Option<usize>) {
   }
   let t0 = Instant::now();
   loop {
-    if DEAD.load(Ordering::SeqCst) == tid {
-      // the crashed process: never runs again
+    let p = POS.load(Ordering::SeqCst);
+    if p >= sched.len() && DEAD.load(Ordering::SeqCst) == tid {
+      // the crashed process: it has performed its last forced access and never runs again
+      PARKED.store(true, Ordering::SeqCst);
       loop {
         std::thread::sleep(Duration::from_millis(50));
       }
     }
-    let p = POS.load(Ordering::SeqCst);
     if p >= sched.len() {
       // free run after the forced prefix
       let n = FREE_RUN_STEPS[tid].fetch_add(1, Ordering::SeqCst);
@@ -306,6 +308,9 @@ fn main() {
   BASE.store(arena.raw_ptr() as usize, Ordering::SeqCst);
   CAPV.store(inp.cap as usize, Ordering::SeqCst);
   SCHED.set(inp.schedule.clone()).unwrap();
+  if inp.crash {
+    DEAD.store(inp.dead.unwrap_or(usize::MAX), Ordering::SeqCst);
+  }
   verif_hook::set_callback(Some(cb));
   let n = inp.progs.len();
   let mut handles = vec![];
@@ -341,7 +346,8 @@ fn main() {
   if let Some(sv) = survivor {
     // wait until the forced prefix (setup + victim's steps) has been consumed, the victim is then left blocked for ever
     loop {
-      if POS.load(Ordering::SeqCst) + 1 >= inp.schedule.len() && HOLDER.load(Ordering::SeqCst) != usize::MAX || POS.load(Ordering::SeqCst) >= inp.schedule.len() {
+      // the victim has performed its last forced access once it is parked at its next one (or has finished)
+      if POS.load(Ordering::SeqCst) >= inp.schedule.len() && (PARKED.load(Ordering::SeqCst) || inp.dead.map(|d| FINISHED[d].load(Ordering::SeqCst)).unwrap_or(true)) {
         break;
       }
       if DIVERGED.load(Ordering::SeqCst) || t0.elapsed() > Duration::from_secs(30) {
@@ -351,7 +357,6 @@ fn main() {
     }
     // the file as the page cache holds it now is opened again (the victim's mapping is simply abandoned)
     let f = inp.file.clone().expect("crash replay needs a file");
-    DEAD.store(inp.dead.unwrap_or(usize::MAX), Ordering::SeqCst);
     verif_hook::set_callback(None);
     let re = unsafe { opts(&inp).with_create(false).with_read(true).with_write(true).map_mut::<Arena, _>(&f) };
     match re {
